@@ -33,9 +33,16 @@ func init() {
 		QuickRuns:  c18QuickRuns,
 		ThoroughS:  480,
 		Gen: func(seed uint64, run int, tier string) *drv.Plan {
+			if run%5 == 2 {
+				return drvdb.GenConcurrent(sim.Sub(seed, "C18-concurrent", run), tier)
+			}
 			return drvdb.Gen(sim.Sub(seed, "C18", run), tier)
 		},
 		Exec: func(p *drv.Plan) *Out {
+			if p.Mode == drvdb.ModeConcurrent {
+				r := drvdb.ExecConcurrent(p)
+				return &Out{Violations: r.Violations, Evals: 1, NonTrivial: r.NonTrivial, Probes: r.Probes, Stats: r.Stats, Trace: r.Trace, Sample: r.Sample, Schedule: r.Schedule, Tainted: r.Tainted, States: r.States}
+			}
 			r := drvdb.Exec(p)
 			return &Out{Violations: r.Violations, Evals: 1, NonTrivial: r.NonTrivial, Probes: r.Probes, Stats: r.Stats, Trace: r.Trace, Sample: r.Sample}
 		},
